@@ -29,7 +29,7 @@ type item struct {
 }
 
 var argPools = map[string][]uint64{
-	"i32": {0, 1, 0xffffffff, 0x80000000, 0x7fffffff, 7, 65528, 65536, 31, 32},
+	"i32": {0, 1, 0xffffffff, 0x80000000, 0x7fffffff, 7, 65528, 65536, 31, 32, 65535, 65521, 65532},
 	"i64": {0, 1, 0xffffffffffffffff, 0x8000000000000000, 0x7fffffffffffffff, 63, 64, 0x100000000},
 	"f32": {0, 0x80000000, 0x3f800000, 0x7f800000, 0xff800000, 0x7fc00000, 0x7fa00001, 0x4f000000, 0xcf000001, 1},
 	"f64": {0, 0x8000000000000000, 0x3ff0000000000000, 0x7ff0000000000000, 0x7ff8000000000000, 0x7ff4000000000001, 0x41e0000000000000, 0xc1e0000000200000, 0x43e0000000000000, 1},
@@ -115,10 +115,16 @@ type inst struct {
 	mod api.Module
 }
 
+// guardLoops makes calls interruptible (the shrinker may cut the decrement out of a counted loop).
+var guardLoops bool
+
 func newInst(ctx context.Context, engine string, bin []byte) (*inst, error) {
 	cfg := wazero.NewRuntimeConfigInterpreter()
 	if engine == "compiler" {
 		cfg = wazero.NewRuntimeConfigCompiler()
+	}
+	if guardLoops {
+		cfg = cfg.WithCloseOnContextDone(true)
 	}
 	rt := wazero.NewRuntimeWithConfig(ctx, cfg)
 	mod, err := rt.InstantiateWithConfig(ctx, bin, wazero.NewModuleConfig())
@@ -149,9 +155,19 @@ func diffOne(id int, raw json.RawMessage) (res common.Result) {
 		res.AddFail("infra", err.Error())
 		return res
 	}
-	ctx := context.Background()
 	rng := rand.New(rand.NewSource(it.Seed))
 	m := wgen.Assemble(it.Bodies, rng)
+	return diffModule(id, m, it, func(fi int) string { return opsOf(it.Bodies[fi]) })
+}
+
+func diffModule(id int, m *wgen.Module, it item, ops func(int) string) (res common.Result) {
+	res = common.Result{ID: id, OK: true}
+	ctx := context.Background()
+	if guardLoops {
+		c, cancel := context.WithTimeout(ctx, 3*time.Second)
+		defer cancel()
+		ctx = c
+	}
 	a, err := newInst(ctx, "interpreter", m.Bin)
 	if err != nil {
 		res.AddFail("valid-module-rejected", "interpreter: "+trunc(err.Error()))
@@ -179,7 +195,7 @@ func diffOne(id int, raw json.RawMessage) (res common.Result) {
 				stats["trap:"+ka]++
 			}
 			fail := func(what, msg string) {
-				res.AddFail(fmt.Sprintf("diff#%s;ops=%s", what, opsOf(it.Bodies[fi])), fmt.Sprintf("function %s%v args %x: %s", name, sig, av, msg))
+				res.AddFail(fmt.Sprintf("diff#%s;ops=%s", what, ops(fi)), fmt.Sprintf("function %s%v args %x: %s", name, sig, av, msg))
 			}
 			if strings.HasPrefix(ka, "INTERNAL") || strings.HasPrefix(kb, "INTERNAL") {
 				fail("internal-failure", fmt.Sprintf("interpreter: %q compiler: %q", ka, kb))
